@@ -433,11 +433,15 @@ impl Gen {
         let n = rng.weighted(&[1, 4, 3, 2]);
         let mut v = vec![];
         for i in 0..n {
-            let l = match rng.weighted(&[12, 1, 2, 1]) {
+            let l = match rng.weighted(&[12, 1, 2, 1, 1, 1]) {
                 0 => format!("<{}.{}.{}>line", self.run_tag, self.step, i),
                 1 => String::new(),
                 2 => format!("é日本<{}.{}.{}>", self.run_tag, self.step, i),
-                _ => format!("x\ny<{}.{}>", self.run_tag, self.step),
+                3 => format!("x\ny<{}.{}>", self.run_tag, self.step),
+                // a line that brings its own terminator, or is nothing but one: the helpers add
+                // exactly one newline per line whatever the line ends in
+                4 => format!("<{}.{}.{}>nl\n", self.run_tag, self.step, i),
+                _ => String::from("\n"),
             };
             v.push(l);
         }
@@ -564,7 +568,7 @@ impl Gen {
                     }
                 }
                 q.push(Op::AllPaths { p: "/W".into() });
-                match rng.below(6) {
+                match if n > 1000 { rng.below(3) } else { rng.below(6) } {
                     0 => q.push(Op::RemoveAll { p: "/W".into() }),
                     1 => q.push(Op::Copy { s: "/W".into(), d: "/W2".into() }),
                     2 => q.push(Op::MoveP { s: "/W".into(), d: "/V".into() }),
@@ -607,6 +611,19 @@ impl Gen {
                 q.push(Op::WriteAll { p: "/B/big".into(), d: Bytes(d.clone()) });
                 q.push(Op::ReadAll { p: "/B/big".into() });
                 q.push(Op::ReadLines { p: "/B/big".into() });
+                // shrink, then grow within the room the longer content left behind (buffer reuse)
+                let head = format!("<{}.re>", tag).into_bytes();
+                for part in [2usize, 3, 4] {
+                    let mut e = head.clone();
+                    for _ in 0..(n * part / 5) {
+                        e.extend_from_slice(unit.as_bytes());
+                    }
+                    q.push(Op::WriteAll { p: "/B/re".into(), d: Bytes(if part == 2 { d.clone() } else { e.clone() }) });
+                    if part == 3 {
+                        q.push(Op::AppendLine { p: "/B/re".into(), s: "grown".into() });
+                    }
+                    q.push(Op::ReadAll { p: "/B/re".into() });
+                }
                 q.push(Op::OpenAppend { h: 0, p: "/B/big".into() });
                 q.push(Op::HWrite { h: 0, d: Bytes(format!("<{}.tail>", tag).into_bytes()) });
                 q.push(Op::HFlush { h: 0 });
